@@ -423,6 +423,33 @@ def _event_clauses():
     ]
 
 
+def _response_clauses():
+    KEYS = ("errors", "data", "extensions")
+
+    def sets(p):
+        return [e[4:] for e in p.events if e.startswith("set:")]
+
+    def iff(key, test):
+        def pred(p):
+            a = p.assumed(test)
+            if a is None or p.outcome != "return":
+                return None
+            return (key in sets(p)) == a
+        return pred
+
+    return [
+        ("only-specified-keys", "the response has no entries other than errors, data, extensions, each at most once",
+         lambda p: all(k in KEYS for k in sets(p)) and len(set(sets(p))) == len(sets(p))),
+        ("specified-order", "entries are added in the order errors, data, extensions", lambda p: sets(p) == sorted(sets(p), key=KEYS.index)),
+        ("data-iff-set", "the data entry is present exactly when data was set (null data is kept, absent data is omitted)", iff("data", "self.data is not _UNSET")),
+        ("errors-iff-any", "the errors entry is present exactly when there is at least one error", iff("errors", "self.errors")),
+        ("extensions-iff-any", "the extensions entry is present exactly when an extension was added", iff("extensions", "self.extensions")),
+        ("errors-serialised-by-to_dict", "every error is rendered through its to_dict()",
+         lambda p: None if ("set:errors" not in p.events or "for[self.errors]{" not in p.events) else
+         p.events[p.events.index("for[self.errors]{") + 1] == "to_dict" and p.events.index("for[self.errors]{") < p.events.index("set:errors")),
+    ]
+
+
 TRACE_CONTRACTS = [
     dict(id="BlockingExecutor.resolve_field", target="py_gql.execution.blocking_executor:BlockingExecutor.resolve_field", props=["C16"],
          config=Config(events=FIELD_EVENTS, nothrow=FIELD_NOTHROW), clauses=FIELD_CLAUSES,
@@ -452,6 +479,10 @@ TRACE_CONTRACTS = [
          clauses=_pgq_clauses(),
          assumes=["Runtime.map_value effect contract", "instrumentation hooks, ensure_wrapped and GraphQLResult() do not raise",
                   "`not validation_result` is true exactly when validation reported errors (ValidationResult.__bool__)"]),
+    dict(id="GraphQLResult.response", target="py_gql.execution.wrappers:GraphQLResult.response", props=["C10"],
+         config=Config(events=[(r"\.to_dict$", "to_dict")], stmt_events=[(r"^d\[[\'\"](\w+)[\'\"]\]$", lambda m: "set:" + m.group(1))],
+                       nothrow=[r"\.payload$", r"\.values$", r"\.to_dict$"]),
+         clauses=_response_clauses(), assumes=["extension payload() and error to_dict() do not raise (to_dict is contracted separately)"]),
     dict(id="execute", target="py_gql.execution.execute:execute", props=["C09", "C16"],
          config=_stage_cfg(extra_events=[(r"execute_fields_serially$", "serial"), (r"execute_fields$", "parallel"), (r"^GraphQLResult$", "result")],
                            extra_nothrow=[r"^GraphQLResult$", r"unwrap_value$"], callbacks=[(r"runtime\.map_value$", map_value_contract)]),
